@@ -750,9 +750,11 @@ def r11_10(ctx, rr):
 
     from r_guards import simple_env
     T = simple_env(F, b)
-    for n in walk(b.body):
-        if n.get("k") == "If" and any("ValueTooLarge" in (F.defpath(x) or "") for x in walk(n["th"]) if x.get("k") == "Path"):
-            c = n["c"]
+    tests = [(n, n["c"], n["th"]) for n in walk(b.body) if n.get("k") == "If"]
+    # ... or a guarded match arm (`Some(w) if derived > w => return Err(ValueTooLarge)`)
+    tests += [(m, a["guard"], a["body"]) for m in walk(b.body) if m.get("k") == "Match" for a in m.get("arms", []) if "guard" in a]
+    for n, c, th in tests:
+        if any("ValueTooLarge" in (F.defpath(x) or "") for x in walk(th) if x.get("k") == "Path"):
             if c.get("k") == "Binary" and c["op"] in (">", "<", ">=", "<="):
                 for side in (c["l"], c["r"]):
                     t = T.term(side)
